@@ -69,7 +69,8 @@ V_trend(e) ==
        Fail(e.outcome # "ok" \/ ~SeqOK(e.outx, e.x, Tol), "C14.trend_x") \cup
        Fail(e.outcome # "ok" \/ ~SeqOK(e.fargs, args, Tol), "C14.trend_arg") \cup
        Fail(e.w_outcome # "ok" \/ ~SeqOK(e.wy, m[2], 50) \/ ~SeqOK(e.wx, e.x, Tol), "C14.weaver_trend") \cup
-       Fail(e.w_outcome = "ok" /\ (~SeqOK(e.wrx, e.x, Tol) \/ ~SeqOK(e.wry, e.y, Tol)), "C08.reshape_keeps_reference") \cup
+       Fail(e.w_outcome = "ok" /\ (~SeqOK(e.wrx, IF "rx0" \in DOMAIN e THEN e.rx0 ELSE e.x, Tol)
+                                  \/ ~SeqOK(e.wry, IF "rx0" \in DOMAIN e THEN e.ry0 ELSE e.y, Tol)), "C08.reshape_keeps_reference") \cup
        Fail(e.caller_modified, "C09.caller_modified")
 
 V_linear_trend(e) ==
